@@ -15,9 +15,9 @@ CASC = {
 }
 
 
-def consts(casc="default", nc=2, depth=5, acts=ALL_ACTS, init="both", dup=False, nullable=True, np_=2, uni=False):
+def consts(casc="default", nc=2, depth=5, acts=ALL_ACTS, init="both", dup=False, nullable=True, np_=2, uni=False, kind="list"):
     return dict(NP=np_, NC=nc, Ps=set(tlc.q("p%d" % i) for i in range(1, np_ + 1)), Cs=set(tlc.q("c%d" % i) for i in range(1, nc + 1)), Casc=set(tlc.q(x) for x in CASC[casc]), Nullable=nullable, Acts=set(tlc.q(a) for a in acts),
-                InitMode=tlc.q(init), AllowDup=dup, Uni=uni, MaxDepth=depth)
+                InitMode=tlc.q(init), AllowDup=dup, Uni=uni, Kind=tlc.q(kind), MaxDepth=depth)
 
 
 def names(c):
@@ -90,6 +90,7 @@ class MakeDriver:
         self.ps, self.cs = names(c)
         self.nullable = c["Nullable"]
         self.uni = c.get("Uni", False)
+        self.kind = c.get("Kind", '"list"').strip('"')
         self.trace_dir = trace_dir
 
     def __call__(self, wid, workdir):
@@ -97,7 +98,7 @@ class MakeDriver:
         sink = None
         if self.trace_dir:
             sink = _Sink(os.path.join(self.trace_dir, "trace-w%d.jsonl" % wid))
-        return Driver(wid, workdir, self.casc, self.ps, self.cs, nullable=self.nullable, trace_sink=sink, uni=self.uni)
+        return Driver(wid, workdir, self.casc, self.ps, self.cs, nullable=self.nullable, trace_sink=sink, uni=self.uni, kind=self.kind)
 
 
 class _Sink:
@@ -176,7 +177,7 @@ def run_suite(chk, rng, configs, footprint, deep=(), expose=(), nontrivial=None,
     expose_r = [r for (kind, _, _, _), (r, _) in zip(jobs, results) if kind == "expose"]
     from checks.ormgraph_driver import mapping
     for cfgd in configs:   # import sqlalchemy and configure the mappers once, before the replay workers fork
-        mapping(CASC[cfgd["casc"]], cfgd["consts"]["Nullable"], cfgd["consts"].get("Uni", False))
+        mapping(CASC[cfgd["casc"]], cfgd["consts"]["Nullable"], cfgd["consts"].get("Uni", False), cfgd["consts"].get("Kind", '"list"').strip('"'))
     for cfgd, g in zip(configs, graphs):
         r = g.tlc
         if r.violated:
